@@ -17,6 +17,9 @@ FIELD_NAMES = ["a", "b", "fld", "x1", "Name", "street", "zip_code", "f2"]
 AFTER = [None, None, "STORED AS PARQUET", "COMMENT 'tc'", "PARTITIONED BY (dt string)"]
 
 
+MODES = ["sql", "mysql", "postgres", "hql", "mssql", "oracle", "redshift", "snowflake", "bigquery", "spark_sql", "databricks", "sqlite", "vertics", "ibm_db2", "athena"]
+
+
 @st.composite
 def inner_type(draw, depth):
     if depth <= 0 or draw(st.integers(0, 9)) < 3:
@@ -50,7 +53,7 @@ def top_type(draw, max_depth):
         elif form == "star":
             size = ["star", draw(st.integers(0, 38))]
         suffix = 0
-        if form in (None, "n", "ps") and len(words) == 1:
+        if (form in (None, "n", "ps") and len(words) == 1) or (form is None and len(words) == 2):
             suffix = draw(st.sampled_from([0, 0, 1, 2]))
         return {"top": "leaf", "words": words, "size": size, "suffix": suffix}
     depth = draw(st.integers(1, max_depth))
@@ -142,12 +145,16 @@ def case_strategy(draw, max_depth):
             if o[0] == "DEFAULT":
                 o[1], o[2] = "'dv'", "'dv'"
     return {"type": ty, "opts": opts, "pos": draw(st.sampled_from(["first", "mid", "last", "only"])),
-            "after": draw(st.sampled_from(AFTER)), "layout": draw(gen.layout(max_len=40)), "norm": draw(st.integers(0, 2)) == 0}
+            "after": draw(st.sampled_from(AFTER)), "layout": draw(gen.layout(max_len=40)), "norm": draw(st.integers(0, 2)) == 0,
+            # the type text does not depend on the output mode; hql (which also reports the column COMMENT) is drawn most often
+            "mode": draw(st.sampled_from(["hql", "hql", "hql"] + MODES))}
 
 
 def norm_type(s):
     """whitespace-free; the stand-alone constructor word ARRAY is a grammar keyword (reported upper-cased)"""
-    return gen.ws_free(re.sub(r"(?i)\barray(?=\s*<)", "ARRAY", s))
+    s = re.sub(r"(?i)\barray(?=\s*<)", "ARRAY", s)
+    # blanks next to punctuation are layout; a blank between two words (DOUBLE PRECISION, struct field and its type) is not
+    return re.sub(r"\s*([<>,:\[\]()])\s*", r"\1", re.sub(r"\s+", " ", s.strip()))
 
 
 def balanced(s):
@@ -177,7 +184,7 @@ class C09(Prop):
     assumptions = [
         "parenthesised sizes inside angle brackets (array<decimal(10,2)>) and [] after an angle type are not generated (grammar rejects / rewrites them)",
         "'timestamp with time zone' is reported through with_time_zone and not generated as a two-word type",
-        "the type text is compared modulo whitespace; the constructor word ARRAY written as a stand-alone token is a grammar keyword and may be reported upper-cased",
+        "the type text is compared modulo blanks next to punctuation (a blank between two words is significant); the constructor word ARRAY written as a stand-alone token is a grammar keyword and may be reported upper-cased",
     ]
 
     def strategy(self, tier):
@@ -230,8 +237,10 @@ class C09(Prop):
         # no delimited identifier is written: normalize_names must not change anything (brackets of [] suffixes are not delimiters)
         norm = bool(case.get("norm"))
         out.label("normalize_names=%s" % norm)
-        r = loader.try_parse(ddl, output_mode="hql", normalize_names=norm)
-        q = loader.try_parse(plain, output_mode="hql", normalize_names=norm)
+        mode = case.get("mode", "hql")
+        out.label("mode:" + mode)
+        r = loader.try_parse(ddl, output_mode=mode, normalize_names=norm)
+        q = loader.try_parse(plain, output_mode=mode, normalize_names=norm)
         out.parses += 2
         if q[0] != "ok" or not q[1] or "columns" not in q[1][0]:
             out.fail("plain-variant-failed", "harmless variant with plain int did not parse: %r -> %r" % (plain, q))
@@ -261,7 +270,7 @@ class C09(Prop):
                     out.fail("following-option", "NOT NULL lost; %r" % ddl)
                 if o[0] == "DEFAULT" and b["default"] != o[2]:
                     out.fail("following-option", "DEFAULT expected %r got %r; %r" % (o[2], b["default"], ddl))
-                if o[0] == "COMMENT" and b.get("comment") != o[1]:
+                if o[0] == "COMMENT" and (mode == "hql" or "comment" in b) and b.get("comment") != o[1]:
                     out.fail("following-option", "COMMENT expected %r got %r; %r" % (o[1], b.get("comment"), ddl))
 
             def proj(e):
